@@ -6,6 +6,14 @@ VERIF = os.path.dirname(os.path.dirname(os.path.abspath(__file__)))
 props = [json.loads(l) for l in open(os.path.join(VERIF, "properties.jsonl"))]
 
 CLAIMS = {
+ "C11": dict(
+  text="Gallina model of Config.init (defaults, denylist with dotted module paths, overrides), Module.Override and resolveModule over a labelled object graph regenerated on every run from the running packages (GetAttr closure of two default configurations, 1865 nodes). Proved: the fuelled reachability search is exact for every graph (reach_complete); script access paths (identifier, import, attribute, getattr, __module__) are graph paths and conversely; denying or overriding a registered name - nested to any depth - removes or redirects exactly that edge; for each of the 246 registered names of the generated graph the denied object has no access path (finite domain, kernel computation lifted through forallb_forall); configurations are independent (frame theorem). Tied by differential runs: every single-deny and single-override configuration, nested host-defined module trees, sampled subsets, judged by object identity on the real objects and by risor.Eval access attempts.",
+  note="Trusted: Coq kernel, the graph generator (c11gen with the add-only overlay hook VerifAttrNames), extraction, harness. Map-order independence of deny/override lists is observed, not proved. Capability aliases (distinct builtins wrapping one Go function, e.g. os.getenv and getenv) are reported in evidence only.",
+  technique="Rocq reachability completeness + regenerated object graph (finite-domain kernel computation) + identity-based differential oracle", ref="DESIGN.md section 5 C11"),
+ "C12": dict(
+  text="Proved by induction on context derivations (top level, host call, clone, spawn, synchronous clone call, import, callback, in any nesting) mirroring vm.getOS / initContext / Clone: when the host supplies an OS, every derived context sees that OS. Proved by a reachability computation with the completeness lemma over a static call graph regenerated with go/ssa on every run (18028 functions): no function of modules os / filepath / fmt, the builtins or object/file.go reaches a function of Go's os, os/user, io/ioutil or syscall packages (calls through the ros.OS / FS / File interfaces cut). Tied by a recording OS passed with WithOS and, separately, in the context, over every OS-facing builtin x context x supply mode, with real-process sentinels (files, environment, cwd, standard streams).",
+  note="Trusted: Coq kernel, c12gen (go/ssa static call graph; interface calls not followed, one documented cut at time.initLocal), extraction, harness. Two documented fall-backs lie outside the hypothesis host_supplies (context value wins over WithOS; a clone called with a bare context when the OS was supplied in the context only).",
+  technique="Rocq induction on derivations + proved reachability over a regenerated static call graph + recording-OS differential oracle", ref="DESIGN.md section 5 C12"),
  "C05": dict(
   text="Go's map iteration order is made an explicit parameter (a permutation of the entries). Proved in Coq for maps of any size: the three order-insensitive loop shapes found in risor - copy by key, collect-then-sort under a total order, commutative aggregate - give the same result for every visiting order. Tied to the source by a go/types translator that regenerates the list of every range-over-map site in the packages the embedding API depends on; the obligation that each existing site is classified is a kernel computation, so a new map iteration breaks it. The oracle compiles and evaluates generated and map/set-centred programs repeatedly in fresh VMs and fresh processes and compares marshalled bytes, results, error texts and captured output.",
   note="Trusted: Coq kernel, the translator, and the hand classification of the 58 sites (coq/model/MapSites.v; seven sites are outside the property: I/O modules, a test helper, error-message choice, overlapping deny/override names). rand/time/scheduling are excluded by the property.",
